@@ -34,8 +34,8 @@ Val(s) == CASE s = "x"  -> <<"x">>
             [] s = "mb" -> <<"n", "U1">>              \* two characters, three bytes
             [] OTHER    -> <<>>
 
-IFSSet(i) == CASE i = "comma" -> {","} [] i = "empty" -> {} [] OTHER -> S!DefaultIFS
-IFSFirst(i) == CASE i = "comma" -> <<",">> [] i = "empty" -> <<>> [] OTHER -> <<"SP">>
+IFSSet(i) == CASE i = "comma" -> {","} [] i = "empty" -> {} [] i = "mb" -> {"U1", ","} [] OTHER -> S!DefaultIFS
+IFSFirst(i) == CASE i = "comma" -> <<",">> [] i = "empty" -> <<>> [] i = "mb" -> <<"U1">> [] OTHER -> <<"SP">>    \* the first CHARACTER of IFS
 
 RECURSIVE JoinWith(_, _)
 JoinWith(vs, sep) == IF Len(vs) = 0 THEN <<>> ELSE IF Len(vs) = 1 THEN vs[1] ELSE vs[1] \o sep \o JoinWith(Tail(vs), sep)
@@ -46,8 +46,10 @@ State(c) ==
     CASE c.p = "v" -> [set |-> c.vst # "unset", null |-> c.vst = "null", vals |-> IF c.vst = "unset" THEN <<>> ELSE <<Val(c.vst)>>]
       [] c.p = "1" -> [set |-> Len(av) >= 1, null |-> Len(av) >= 1 /\ av[1] = <<>>, vals |-> IF Len(av) >= 1 THEN <<av[1]>> ELSE <<>>]
       [] c.p = "@" -> [set |-> TRUE, null |-> Len(av) = 0 \/ (Len(av) = 1 /\ av[1] = <<>>), vals |-> av]
+      \* unquoted, $* stands for one field per positional parameter (each split further), like $@;
+      \* in double quotes for the parameters joined by the first character of IFS
       [] c.p = "*" -> [set |-> TRUE, null |-> Len(av) = 0 \/ (Len(av) = 1 /\ av[1] = <<>>),
-                       vals |-> IF Len(av) = 0 THEN <<>> ELSE <<JoinWith(av, IFSFirst(c.ifs))>>]
+                       vals |-> IF Len(av) = 0 THEN <<>> ELSE IF c.q = "dq" THEN <<JoinWith(av, IFSFirst(c.ifs))>> ELSE av]
       [] c.p = "#" -> [set |-> TRUE, null |-> FALSE, vals |-> << <<ToString(Len(av))>> >>]
       [] OTHER     -> [set |-> FALSE, null |-> FALSE, vals |-> <<>>]           \* "!"
 
@@ -71,7 +73,7 @@ FieldsOf(pfs, c) ==
 
 (* the pre-fields of the parameter's own value *)
 ValuePre(st, c) ==
-    IF c.p = "@" THEN [i \in 1..Len(st.vals) |-> PosQ(st.vals[i], InDQ(c))]
+    IF c.p = "@" \/ (c.p = "*" /\ c.q # "dq") THEN [i \in 1..Len(st.vals) |-> PosQ(st.vals[i], InDQ(c))]
     ELSE IF Len(st.vals) = 0 THEN (IF InDQ(c) THEN << <<[c |-> "", q |-> TRUE]>> >> ELSE << <<>> >>)
     ELSE << PosQ(st.vals[1], InDQ(c)) >>
 
@@ -126,6 +128,7 @@ Expected(c) ==
 
 (* cells where the property leaves the result open *)
 Unspecified(c) == \/ c.p = "*" /\ c.op = "len"                 \* ${#*} is unspecified by POSIX
+                  \/ c.p = "*" /\ c.op \in {"%", "%%", "#", "##"}   \* so is pattern removal applied to $*
                   \* "${@ op word}" without positional parameters: POSIX fixes "zero fields" only for "$@" itself
                   \/ c.p = "@" /\ Len(c.args) = 0 /\ c.q = "dq" /\ c.op # ""
 
